@@ -9,10 +9,15 @@ import (
 	"time"
 
 	z "github.com/Oudwins/zog"
+	"github.com/Oudwins/zog/conf"
 )
+
+// NamedStr is the named string type of StringSchema[NamedStr] destinations.
+type NamedStr string
 
 // CallRec is one observed user-callback invocation.
 type CallRec struct {
+	Type string // %T of the argument the callback received
 	ID   int
 	Kind string // "test", "pt", "custom", "pre"
 	Arg  any    // the dereferenced argument as a reflect-serialisable value; nil = the callback got nil
@@ -28,7 +33,7 @@ type Recorder struct {
 }
 
 func (r *Recorder) rec(id int, kind string, arg any, ctx z.Ctx) {
-	c := CallRec{ID: id, Kind: kind}
+	c := CallRec{ID: id, Kind: kind, Type: fmt.Sprintf("%T", arg)}
 	if arg == nil {
 		c.Nil = true
 	} else {
@@ -103,6 +108,9 @@ var timeType = reflect.TypeOf(time.Time{})
 func TypeOf(n *Node) reflect.Type {
 	switch n.Kind {
 	case KString, KCustom, KPre:
+		if n.Named {
+			return reflect.TypeOf(NamedStr(""))
+		}
 		return reflect.TypeOf("")
 	case KInt:
 		return reflect.TypeOf(int(0))
@@ -262,6 +270,8 @@ func mkPT(rec *Recorder, pt PTSpec) z.PostTransform {
 			return errors.New(pt.S)
 		case "issue":
 			return UserIssue()
+		case "wrap_issue":
+			return fmt.Errorf("delegated check failed: %w", UserIssue())
 		case "noop":
 			return nil
 		default:
@@ -291,18 +301,40 @@ func userTest(rec *Recorder, t *TestSpec, kind string) z.BoolTFunc {
 // MatchRegex is the one regular expression the Match built-in is exercised with.
 var MatchRegex = regexp.MustCompile(`^[a-c]+[0-9]?$`)
 
-func buildString(rec *Recorder, n *Node) *z.StringSchema[string] {
+func buildString(rec *Recorder, n *Node) z.ZogSchema {
+	if n.Named {
+		s := &z.StringSchema[NamedStr]{}
+		z.WithCoercer(func(d any) (any, error) {
+			v, err := conf.Coercers.String(d)
+			if err != nil {
+				return nil, err
+			}
+			return NamedStr(v.(string)), nil
+		})(s)
+		return buildStringT(rec, n, s)
+	}
 	var opts []z.SchemaOption
 	if n.Coercer != "" {
 		opts = append(opts, z.WithCoercer(customCoercer(n)))
 	}
-	s := z.String(opts...)
+	return buildStringT(rec, n, z.String(opts...))
+}
+
+func toT[T ~string](xs []string) []T {
+	r := make([]T, len(xs))
+	for i, x := range xs {
+		r[i] = T(x)
+	}
+	return r
+}
+
+func buildStringT[T ~string](rec *Recorder, n *Node, s *z.StringSchema[T]) *z.StringSchema[T] {
 	applyMods(n, func(o ...z.TestOption) { s.Required(o...) }, func() { s.Optional() })
 	if n.Def != nil {
-		s.Default(n.Def.S)
+		s.Default(T(n.Def.S))
 	}
 	if n.Catch != nil {
-		s.Catch(n.Catch.S)
+		s.Catch(T(n.Catch.S))
 	}
 	for i := range n.Tests {
 		t := &n.Tests[i]
@@ -311,7 +343,7 @@ func buildString(rec *Recorder, n *Node) *z.StringSchema[string] {
 			s.TestFunc(userTest(rec, t, "test"), o...)
 			continue
 		}
-		var ns z.NotStringSchema[string]
+		var ns z.NotStringSchema[T]
 		if t.Not {
 			ns = s.Not()
 		}
@@ -332,27 +364,27 @@ func buildString(rec *Recorder, n *Node) *z.StringSchema[string] {
 			}
 		case "oneof":
 			if t.Not {
-				ns.OneOf(t.Strs, o...)
+				ns.OneOf(toT[T](t.Strs), o...)
 			} else {
-				s.OneOf(t.Strs, o...)
+				s.OneOf(toT[T](t.Strs), o...)
 			}
 		case "prefix":
 			if t.Not {
-				ns.HasPrefix(t.S, o...)
+				ns.HasPrefix(T(t.S), o...)
 			} else {
-				s.HasPrefix(t.S, o...)
+				s.HasPrefix(T(t.S), o...)
 			}
 		case "suffix":
 			if t.Not {
-				ns.HasSuffix(t.S, o...)
+				ns.HasSuffix(T(t.S), o...)
 			} else {
-				s.HasSuffix(t.S, o...)
+				s.HasSuffix(T(t.S), o...)
 			}
 		case "contains":
 			if t.Not {
-				ns.Contains(t.S, o...)
+				ns.Contains(T(t.S), o...)
 			} else {
-				s.Contains(t.S, o...)
+				s.Contains(T(t.S), o...)
 			}
 		case "upper":
 			if t.Not {
@@ -663,6 +695,8 @@ func Build(rec *Recorder, n *Node, validate bool) z.ZogSchema {
 				return "", errors.New("pre error")
 			case "issue":
 				return "", UserIssue()
+			case "wrap":
+				return "", fmt.Errorf("delegated check failed: %w", UserIssue())
 			}
 			panic("preop " + n.PreOp)
 		}
